@@ -418,6 +418,67 @@ fn foreign_advertisements(run: &Run) {
     }
 }
 
+/// A node whose routing table holds more peers than its K closest: advertisements from every peer outside the K closest
+/// (single-key lists for a record right next to the sender, and multi-key lists) must cause no fetch and queue nothing;
+/// the same lists from peers among the K closest must.
+fn far_peer_advertisements(run: &Run) {
+    let root = crate::c01::fresh_scratch("c09-far");
+    let mut rig = crate::driver_rig::DriverRig::new_node(1, &root);
+    let peers: Vec<libp2p::PeerId> = (0..45u8).map(|i| rigs::fixtures::peer_id(100 + i)).collect();
+    for (i, p) in peers.iter().enumerate() {
+        let ok = rig.driver.verif_add_peer(*p, format!("/ip4/127.0.0.1/udp/{}/quic-v1", 31000 + i).parse().unwrap());
+        if !ok {
+            run.machinery_error("routing table insert failed");
+        }
+    }
+    let close: Vec<libp2p::PeerId> = rig.driver.verif_closest_k_value_local_peers();
+    let far: Vec<libp2p::PeerId> = peers.iter().filter(|p| !close.contains(p)).cloned().collect();
+    if far.is_empty() {
+        run.machinery_error("every routing-table peer is among the K closest: the far-peer clause would be vacuous");
+    }
+    let chunk = rec::chunk(b"c09 far list");
+    let mut acted_on_close = 0usize;
+    for (who, set) in [("outside the K closest", &far), ("among the K closest", &close)] {
+        for p in set.iter() {
+            if !peers.contains(p) {
+                continue; // the node itself
+            }
+            // a record whose address is the sender's own (nothing is closer to it than the sender), in raw form
+            let next_to_sender = NetworkAddress::from_record_key(&NetworkAddress::from_peer(*p).to_record_key());
+            let lists: Vec<(&str, Vec<(NetworkAddress, RecordType)>)> = vec![
+                ("one key next to the sender", vec![(next_to_sender.clone(), RecordType::Chunk)]),
+                ("two keys", vec![(next_to_sender, RecordType::Chunk), (NetworkAddress::from_chunk_address(*chunk.address()), RecordType::Chunk)]),
+            ];
+            for (lname, list) in lists {
+                let before = rig.driver.verif_fetcher_view();
+                let driver = &mut rig.driver;
+                let _ = rig.exec.capture(None, "replicate", || driver.verif_handle_replicate(NetworkAddress::from_peer(*p), list));
+                rig.settle();
+                let after = rig.driver.verif_fetcher_view();
+                run.case(format!("far-ad:{who}:{p}:{lname}").as_bytes(), true);
+                if who == "outside the K closest" {
+                    if after != before {
+                        run.violation(
+                            "only-close-peers-advertise",
+                            "far-peer-list-acted-on",
+                            format!("a list ({lname}) from a routing-table peer outside the K closest changed the fetcher from {before:?} to {after:?} (queued, in flight)"),
+                            json!({"engine": "sequential", "routing_table_peers": peers.len(), "k_closest": close.len(), "list": lname}),
+                        );
+                    }
+                } else if after != before {
+                    acted_on_close += 1;
+                }
+            }
+        }
+    }
+    if acted_on_close == 0 {
+        run.machinery_error("no list from a peer among the K closest was acted on: the far-peer clause would be vacuous");
+    }
+    run.extra("far_peer_advertisements", json!({"routing_table_peers": peers.len(), "k_closest": close.len(), "far_peers": far.len()}));
+    drop(rig);
+    let _ = std::fs::remove_dir_all(&root);
+}
+
 pub fn main(tier: Option<&str>) {
     let run = Run::new("C09", "model_checking", tier);
     run.rule(
@@ -425,7 +486,7 @@ pub fn main(tier: Option<&str>) {
          path: a chunk on A only, divergent registers (disjoint and nested op sets), divergent transaction sets (2 and 3 nodes), scratchpads \
          with counters 1 and 3, a scratchpad on A only, the same with A's disk write held back during round 1, and records accepted by A after the first round; then 3 rounds of \
          interval replication on every node 120 s apart (6 rounds 31 s apart / 4 rounds 46 s apart for the late-record scenarios); every \
-         delivery order of the in-flight requests/responses with <=1(2) deviations from FIFO. Plus advertisements from a stranger and from self.",
+         delivery order of the in-flight requests/responses with <=1(2) deviations from FIFO. Plus advertisements from a stranger and from self, and — on a node whose routing table holds 45 peers — one-key (record next to the sender) and two-key lists from every peer outside / among the K closest.",
     );
     run.assume("the harness is the transport: it delivers a Replicate to the receiver's real handler with the holder claimed in the message (the real handler also only sees the claimed holder)");
     run.assume("no responsible range is set (small networks): every neighbour is a replication target and every key is in range");
@@ -434,5 +495,6 @@ pub fn main(tier: Option<&str>) {
         run_scenario(&run, &sc, bound, sc.rounds);
     }
     foreign_advertisements(&run);
+    far_peer_advertisements(&run);
     run.finish();
 }
